@@ -312,7 +312,34 @@ def check_from_iter(run, cx, cfg):
                 if writes:
                     bad = 'writes after the iterator ran short'
                 inner = [l for l in rl[1:]]
-                if not inner or inner[0]['lo'] != ('int', 0, 'usize') or inner[0]['hi'] != i:
+                alt = None
+                if not inner:
+                    # the same cleanup spelled as a loop over the sub-slice `&mut result[..i]` (possibly in a private helper):
+                    # every element of result[..i], in order -- decided with the element-of abstraction
+                    from rules.elemof import Den
+                    den = Den(p)
+                    for l2 in iterator_loops(p):
+                        seq = den.iter_of(l2['iter'])
+                        if seq[0] == 'seq' and seq[1][0] == 'slice' and seq[1][1][0] == 'call' and seq[1][1][1].endswith('::index_mut') \
+                                and seq[1][1][2][1] == ('agg', ('adt', 'core::ops::range::RangeTo', 0, 'RangeTo'), (i,)):
+                            # ... of the array being filled (the MaybeUninit array local of this function)
+                            base = p['events'][seq[1][1][3]]['args'][0]
+                            if base[0] == 'ref' and base[1][0][0] == 'L' and base[1][0][1] == 0 and not base[1][1] \
+                                    and body['locals'][base[1][0][2]].startswith('[core::mem::maybe_uninit::MaybeUninit<'):
+                                alt = (l2, seq, den)
+                if alt is not None:
+                    l2, seq, den = alt
+                    dd = dict(cond_facts(p)).get(('discr', ('ret', l2['next'])))
+                    if dd == ('int', 1, 'isize'):
+                        if len(drops) != 1 or den.of(drops[0][1]['args'][0]) != ('elem', seq[1], (l2['header'], l2['frame'])):
+                            bad = 'cleanup must drop each element of result[..i]'
+                        kinds.add('cleanup')
+                    else:
+                        r = p['ret']
+                        if p['end'] != 'return' or not (r[0] == 'agg' and r[1][2] == 0) or drops:
+                            bad = 'after the cleanup it must return None'
+                        kinds.add('short')
+                elif not inner or inner[0]['lo'] != ('int', 0, 'usize') or inner[0]['hi'] != i:
                     bad = bad or 'on a short iterator exactly the slots 0..i already written must be dropped'
                 else:
                     ik = inner[0]['nexts'][0]
